@@ -68,6 +68,13 @@ pub enum RcOp
     /// of every component it does not need (its own system component included) in the middle of the call: the call
     /// returns normally and the entity stays (it is counted and clones exist)
     CallSpawned(u8, bool),
+    /// give the entity a component whose `Drop` collects garbage in a SECOND world living on the same thread (a sandbox
+    /// owned by the entity, say): whenever the component goes - by hand, or in the middle of a collection pass of the
+    /// first world - that collection must take what is waiting in the second world
+    PlantDropGc(u8),
+    /// the second world of the thread prepares an entity, drops its signal and collects: nothing of that concerns the
+    /// first world, whose pending entities must still be taken by its own next collection
+    SiblingGc,
 }
 
 thread_local!
@@ -236,10 +243,36 @@ pub struct RcOutcome
     pub classes: BTreeMap<String, u32>,
 }
 
+thread_local!
+{
+    /// the second world of the thread, and how often a collection there failed to take a fully dropped entity
+    static OTHER: std::cell::RefCell<Option<World>> = std::cell::RefCell::new(None);
+    static OTHER_LEAKS: std::cell::Cell<u32> = std::cell::Cell::new(0);
+}
+
+#[derive(Component)]
+struct DropGc;
+
+impl Drop for DropGc
+{
+    fn drop(&mut self)
+    {
+        OTHER.with(|o| {
+            let Ok(mut o) = o.try_borrow_mut() else { return };
+            let Some(w) = o.as_mut() else { return };
+            let x = w.spawn_empty().id();
+            let sig = w.resource::<AutoDespawner>().prepare(x);
+            drop(sig);
+            garbage_collect_entities(w);
+            if w.get_entity(x).is_ok() { OTHER_LEAKS.with(|l| l.set(l.get() + 1)); }
+        });
+    }
+}
+
 /// The system behind `spawn_rc_system(_from)`: optionally strips its own entity during the call.
 fn strip_sys(In((me, strip)): In<(Entity, bool)>, world: &mut World) -> u8
 {
-    if strip { if let Ok(mut em) = world.get_entity_mut(me) { em.retain::<(Parent, Children, Holder, Fuse)>(); } }
+    if strip { if let Ok(mut em) = world.get_entity_mut(me) { em.retain::<(Parent, Children, Holder, Fuse, DropGc)>(); } }
     7
 }
 
@@ -247,6 +280,8 @@ fn hit0(out: &mut RcOutcome, l: &str) { *out.classes.entry(l.to_string()).or_def
 
 fn run_inner(case: &RcCase, out: &mut RcOutcome)
 {
+    OTHER.with(|o| *o.borrow_mut() = None);
+    OTHER_LEAKS.with(|l| l.set(0));
     let mut app = App::new();
     if case.with_react { app.add_plugins(ReactPlugin); hit0(out, "C10:with_react_plugin"); } else { app.setup_auto_despawn(); }
     let n = case.n_entities.max(1) as usize;
@@ -451,6 +486,21 @@ fn run_inner(case: &RcCase, out: &mut RcOutcome)
                 }
                 if *strip && want_ok { callable[k].1 = true; hit(out, "C10:spawned_system_strips_its_own_entity"); }
             }
+            RcOp::SiblingGc =>
+            {
+                OTHER.with(|o| { let mut o = o.borrow_mut(); if o.is_none() { let mut a = App::new(); a.setup_auto_despawn(); *o = Some(std::mem::take(a.world_mut())); } });
+                // (the same work a `DropGc` component does, outside any pass)
+                drop(DropGc);
+                hit(out, "C10:second_world_collects_in_between");
+            }
+            RcOp::PlantDropGc(e) =>
+            {
+                let e = *e as usize % ents.len();
+                if !m.alive[e] || m.unknown[e] { continue; }
+                OTHER.with(|o| { let mut o = o.borrow_mut(); if o.is_none() { let mut a = App::new(); a.setup_auto_despawn(); *o = Some(std::mem::take(a.world_mut())); } });
+                app.world_mut().entity_mut(ents[e]).insert(DropGc);
+                hit(out, "C10:second_world_collected_from_a_drop");
+            }
             RcOp::Watch(e) =>
             {
                 if !case.with_react { continue; }
@@ -624,6 +674,11 @@ fn run_inner(case: &RcCase, out: &mut RcOutcome)
                 gcs += 1;
             }
         }
+        let leaks = OTHER_LEAKS.with(|l| l.replace(0));
+        if leaks > 0
+        {
+            out.violations.push(format!("op {i} {:?}: {leaks} collection(s) of a second world on the same thread did not despawn an entity whose every signal clone had been dropped (run from a component's Drop, possibly inside a collection pass of the first world)", op));
+        }
         // after every operation: exactly the model's entities are alive
         for e in 0..ents.len()
         {
@@ -666,7 +721,7 @@ pub fn decode(bytes: &[u8], max_ops: usize, threads: bool) -> RcCase
     let n_ops = below(byte(&mut u), max_ops + 1);
     for _ in 0..n_ops
     {
-        let k = below(byte(&mut u), 45);
+        let k = below(byte(&mut u), 48);
         let a = byte(&mut u) % 12;
         let b = byte(&mut u) % 12;
         let op = match k
@@ -691,6 +746,8 @@ pub fn decode(bytes: &[u8], max_ops: usize, threads: bool) -> RcCase
             40 => RcOp::Watch(a),
             41 | 42 => RcOp::SpawnRc(b),
             43 | 44 => RcOp::CallSpawned(a, b % 2 == 1),
+            45 => RcOp::PlantDropGc(a),
+            46 | 47 => RcOp::SiblingGc,
             21 | 22 | 23 => RcOp::StoreOn(a, b),
             _ =>
             {
